@@ -346,8 +346,8 @@ func (la *LockAnalysis) translate(cs *callSite, fact string) (string, bool) {
 	i := strings.LastIndexByte(rest, ':')
 	path, mode := rest[:i], rest[i:]
 	t := cs.target
-	if t.lit != nil {
-		return fact, true // same variable namespace
+	if t.lit != nil || strings.HasPrefix(path, "^") {
+		return fact, true // same variable namespace / already anonymous
 	}
 	try := func(from, to string) (string, bool) {
 		if from == "" || to == "" || to == "_" {
@@ -376,6 +376,14 @@ func (la *LockAnalysis) translate(cs *callSite, fact string) (string, bool) {
 				return s, true
 			}
 		}
+	}
+	// the callee cannot name the object whose lock the caller holds (a method of
+	// a record called under its table's lock): the lock is still held; keep it
+	// as an anonymous fact "^Struct.field" that only the record rules consult
+	if v := la.lockVar[path]; v != nil {
+		np := "^" + la.W.canonField(v)
+		la.lockVar[np] = v
+		return "L:" + np + mode, true
 	}
 	return "", false
 }
